@@ -458,7 +458,7 @@ def panic_audit(ctx, rule="C09.R3", only=None, sessions_ok=None):
                 continue
             # unwrap of try_into() of a guarded index: the index site is guarded -> same guard dominates
             # (ii) type invariant of RecordIdentifier
-            if b.path.startswith("sync::RecordIdentifier::") and cls in ("index", "unwrap", "slice"):
+            if b.path.startswith("sync::RecordIdentifier::") and cls in ("index", "unwrap", "expect", "slice"):
                 if inv_ok is None:
                     inv_ok = record_identifier_invariant(ctx, rule)
                 if inv_ok:
